@@ -98,6 +98,13 @@ def gen_cases(tier, seed):
         if B <= 7:
             t = min(t, 150)
         cases.append((B, t, rng.random() < 0.4, rng.random() < 0.6, None))
+    # file journal: records about as large as the (young) journal file, which has to grow by more than one doubling
+    step = 8 if tier == 'quick' else 2
+    for lo, hi in ((1900, 2100), (3950, 4110), (8050, 8200)):
+        for t in range(lo, hi, step):
+            cases.append((65536, t, True, True, None))
+            if tier != 'quick' or t % 16 == 0:
+                cases.append((1000, t, True, False, None))
     for sh in SHAPES:
         for B in (50, 65536):
             cases.append((B, 0, False, True, sh))
